@@ -98,13 +98,14 @@ def unary_nest_ok(where: int, m1: bool, m2: bool) -> bool:
 
 
 ARGS = [('empty',), ('num', '1'), ('bin', '+', ('num', '1'), ('num', '2')), ('str', 'a,b'),
-        ('par', ('bin', ',', ('ref', 'A1'), ('ref', 'B2'))), ('neg', '-', ('num', '3'))]
+        ('par', ('bin', ',', ('ref', 'A1'), ('ref', 'B2'))), ('neg', '-', ('num', '3')), ('pct', ('num', '5'))]
+NARGS = len(ARGS)
 
 
 def func_ok(n: int, a0: int, a1: int, a2: int, a3: int, lower: bool, ws: int, nest: bool) -> bool:
     """
     pre: 0 <= n <= 4 and 0 <= ws < 3
-    pre: 0 <= a0 < 6 and 0 <= a1 < 6 and 0 <= a2 < 6 and 0 <= a3 < 6
+    pre: 0 <= a0 < NARGS and 0 <= a1 < NARGS and 0 <= a2 < NARGS and 0 <= a3 < NARGS
     post: _
     """
     # argument counting: empty arguments keep their position, separators inside
@@ -118,16 +119,16 @@ def func_ok(n: int, a0: int, a1: int, a2: int, a3: int, lower: bool, ws: int, ne
     return agree(t, False, ws, lower)
 
 
-CELLS = [('num', '1'), ('str', 'x;y'), ('num', '-2'), ('err', '#N/A'), ('num', 'TRUE')]
+CELLS = [('num', '1'), ('str', 'x;y'), ('num', '-2'), ('err', '#N/A'), ('num', 'TRUE'), ('pct', ('num', '5'))]
 
 
 def array_ok(r: int, c: int, k: int, ws: int) -> bool:
     """
-    pre: 1 <= r <= 3 and 1 <= c <= 3 and 0 <= k < 5 and 0 <= ws < 3
+    pre: 1 <= r <= 3 and 1 <= c <= 3 and 0 <= k < 6 and 0 <= ws < 3
     post: _
     """
     # array literal rows/columns split only at top-level separators
-    rows = [[CELLS[(k + i * c + j) % 5] for j in range(c)] for i in range(r)]
+    rows = [[CELLS[(k + i * c + j) % 6] for j in range(c)] for i in range(r)]
     t = ('arr', rows)
     return agree(t, False, ws) and agree(('fun', 'SUM', [t, ('num', '1')]), False, ws)
 
